@@ -1,12 +1,18 @@
 use crate::ctx::{Ctx, RunCfg};
 
 pub mod c01;
+#[cfg(feature = "full")]
+pub mod c02;
 pub mod c04;
 pub mod c06;
 pub mod c07;
 #[cfg(feature = "full")]
 pub mod c10;
 pub mod c12;
+#[cfg(feature = "full")]
+pub mod c13;
+#[cfg(feature = "full")]
+pub mod c14;
 
 pub struct Spec {
     pub id: &'static str,
@@ -34,6 +40,15 @@ pub fn all() -> Vec<Spec> {
             run: c01::run,
             level: "exploration",
             rule: "cases drawn from (seed, monitor, index): encoding x role x codec x buffer_size x yield_threshold x message sizes (boundary set) x source readiness script; each encoded through the real EncodeBody, judged by the reference framing parser + independent decompressor, re-encoded under 3 other schedules (byte equality), then re-cut (7 cut styles, or every single/double cut in monitor `allcuts`) and decoded through the real Streaming. Fingerprint = enc|role|codec|buffer class|yield class|#msgs class|readiness class|what the cuts hit|#DATA frames class. Non-trivial = >=2 messages and at least one cut strictly inside a prefix or payload.",
+            exhaustive: false,
+            assumptions: COMMON_ASSUMPTIONS,
+        },
+        #[cfg(feature = "full")]
+        Spec {
+            id: "C02",
+            run: c02::run,
+            level: "exploration",
+            rule: "a script (initial metadata, k messages, OK or Status(code 1..16, Unicode message, details, metadata), possibly failing up front, bidi read/write interleaving) drives the real generated server behind the real generated client for each of the 4 call shapes; loopback monitor: in-process transport whose request and response bodies are re-chunked (pieces of 1..max_piece bytes, merges across frames, injected Pending) - h2 monitor: real Endpoint/Server over a fragmenting in-memory pipe with tiny HTTP/2 windows on a paused clock. Oracle: reference model of the four shapes (judge_call) + handler-side log of received messages/metadata (judge_request). Fingerprint = transport|shape|k class|outcome code|up-front|#request msgs class|metadata class|piece size. Non-trivial = error outcome or >=2 messages in either direction.",
             exhaustive: false,
             assumptions: COMMON_ASSUMPTIONS,
         },
@@ -75,6 +90,24 @@ pub fn all() -> Vec<Spec> {
             run: c12::run,
             level: "exploration",
             rule: "http::Request generated over 10 methods x 5 versions x 10 URI shapes x header multimaps (repeated, reserved, -bin valid/invalid, grpc-timeout) x 3 extension marker types x a token body that records polls; interceptor action in {identity, insert, append, remove, ext insert/remove/replace, fresh request, reject(any code, Unicode message, details, metadata)} applied by the real InterceptedService in front of a capture service. Oracle: reference application of the action to the original header multimap and extension set; URI/method/version/body identity; on reject: capture count 0, HTTP 200 + application/grpc, empty body, status decoded by the harness's own codecs and by Status::from_header_map. Fingerprint = action|method|version|#headers class|reserved present|extension presence bits. Non-trivial = any non-identity action.",
+            exhaustive: false,
+            assumptions: COMMON_ASSUMPTIONS,
+        },
+        #[cfg(feature = "full")]
+        Spec {
+            id: "C13",
+            run: c13::run,
+            level: "fault_enumeration",
+            rule: "scenario = 1..3 connections (fragmenting in-memory pipes, tiny or default HTTP/2 windows) x 1..6 scripted calls (unary / client-stream / server-stream / bidi with virtual start times, handler latencies, inter-message gaps) x a shutdown signal placed on a phase boundary of some call (-1/0/+1 ms) or fired in the very accept-loop iteration that takes the k-th connection x optional post-signal call on an old or a fresh connection x clients dropping or keeping their channels; real Server::serve_with_incoming_shutdown and real Endpoint/Channel on a paused clock. An event log (conn_offered/taken/closed, handler_enter/headers/msg/exit, call_start/end, signal_fired, serve_resolved) is checked offline: every call whose handler was entered before signal_fired ends with exactly its scripted outcome; every call ends; no conn_taken after signal_fired; serve_resolved comes after conn_closed of every taken connection and within 3600 virtual seconds of the last call's end. Fingerprint = multiset of call phases at the signal|#connections|clients kept|signal kind. Non-trivial = at least one accepted call still in flight at the signal.",
+            exhaustive: false,
+            assumptions: COMMON_ASSUMPTIONS,
+        },
+        #[cfg(feature = "full")]
+        Spec {
+            id: "C14",
+            run: c14::run,
+            level: "fault_enumeration",
+            rule: "fault scripts = (lazy|eager) x connect outcomes in {fail, ok}^<=3 x operations in {call, kill}^<=4 enumerated (all 1800 in thorough, a seeded sample of 300 in quick) plus sampled longer scripts (<=8 outcomes, <=10 operations incl. back-to-back calls); a scripted connector consumes one outcome per invocation and hands the peer half of a fragmenting in-memory pipe to a real tonic server; `kill` resets the live pipe (wakes parked I/O); a generated-client call is issued at each quiescent point of a paused clock. Oracle = reference model driven by the connector invocations observed during each call (live => Ok with no attempt; attempt ok => Ok; attempts all failed => UNAVAILABLE; no attempt while disconnected => violation; eager initial failure => Err after exactly one invocation; every call resolves within 60 virtual seconds; Ok => handler ran once). Fingerprint = lazy/eager + sequence of model transitions. Non-trivial = contains a kill, a failed attempt or an eager initial failure.",
             exhaustive: false,
             assumptions: COMMON_ASSUMPTIONS,
         },
